@@ -105,6 +105,7 @@ class Path:
         self.decisions = []
         self.facts = {}       # xkey -> [(c, frozenset outcomes)]   meaning  x ? c
         self.atoms = []       # (cond node, choice, x description, c, outcomes)
+        self.sig = []
         self.bfacts = {}      # bool node id -> bool (non-fcmp atoms)
         self.events = []
         self.objs = []
@@ -139,6 +140,10 @@ class Executor:
         self.realmode = realmode  # prune UN outcome (no NaN) -- R-semantics path enumeration
         from . import poly
         self.rctx = poly.Ctx()
+        self.oracle = None      # concolic mode: concrete values of all inputs decide every open branch
+        self.zpre = None        # optional: function(to_z3) -> [z3 constraints]  (contract precondition for guided exploration)
+        self.zsolver = None
+        self.zvars = {}
 
     # ------------------------------------------------------------------ public
     def explore(self, fname, make_args, max_paths=4096):
@@ -154,6 +159,15 @@ class Executor:
             self.globals_mem = {}
             MemObj._next = 1
             self.newdec = []
+            self.zsolver = None
+            if self.zpre is not None and self.realmode:
+                import z3
+                self.zsolver = z3.Solver()
+                self.zsolver.set("timeout", 3000)
+                try:
+                    self.zsolver.add(*self.zpre(self.to_z3))
+                except Exception as e:
+                    raise Unsupported("precondition not expressible for z3: %r" % (e,))
             try:
                 self.run_global_ctors()
                 for o in p.objs:
@@ -170,6 +184,37 @@ class Executor:
             if len(paths) > max_paths:
                 raise Unsupported("more than %d paths in %s" % (max_paths, fname))
         return paths
+
+    def explore_concolic(self, fname, make_args, envs):
+        """Concolic path discovery: one symbolic execution per concrete sample; branches are decided by the sample.
+        Returns the distinct paths (by branch signature) with the list of samples that reached them."""
+        found = {}
+        for env in envs:
+            p = Path()
+            self.path = p
+            self.steps = 0
+            self.globals_mem = {}
+            MemObj._next = 1
+            self.newdec = []
+            self.oracle = env
+            self.zsolver = None
+            try:
+                self.run_global_ctors()
+                for o in p.objs:
+                    o.written = set()
+                args = make_args(self, p)
+                p.ret = self.call_function(self.mod.functions[fname], args)
+            except PathAbort as e:
+                p.status, p.detail = e.kind, e.detail
+            finally:
+                self.oracle = None
+            key = (p.status, tuple(p.sig))
+            if key not in found:
+                p.samples = [env]
+                found[key] = p
+            else:
+                found[key].samples.append(env)
+        return list(found.values())
 
     def run_global_ctors(self):
         g = self.mod.globals.get("llvm.global_ctors")
@@ -636,6 +681,33 @@ class Executor:
                 return True
             if not (poss & ps):
                 return False
+            if self.oracle is not None:
+                try:
+                    val = dag.eval_ieee([cond], self.oracle)
+                    choice = bool(val[cond.id])
+                except Exception as e:
+                    raise PathAbort("oracle", "cannot evaluate branch condition on the concrete sample: %r" % (e,))
+                newposs = (poss & ps) if choice else (poss - ps)
+                lst.append((c, frozenset(newposs)))
+                p.atoms.append((cond, choice, xdesc, c, frozenset(newposs)))
+                p.trace.append((dag.show(cond, 3), choice, what))
+                p.sig.append((cond.id, choice))
+                return choice
+            zd = None
+            if self.zsolver is not None:
+                zo, zd = self.z3_outcomes(a, b)
+                if zo is not None:
+                    zposs = frozenset(_SWAP[x] for x in zo) if False else frozenset(zo)
+                    # z3 outcomes are for a ? b; ps/poss were flipped together with the canonical form
+                    if flip:
+                        zposs = frozenset(_SWAP[x] for x in zposs)
+                    poss = poss & zposs
+                    if not poss:
+                        raise PathAbort("infeasible", "path condition contradicts the precondition")
+                    if poss <= ps or not (poss & ps):
+                        forced = poss <= ps
+                        lst.append((c, frozenset(poss)))
+                        return forced
             k = p.ndec
             p.ndec += 1
             if k < len(p.decisions):
@@ -645,6 +717,11 @@ class Executor:
                 p.decisions.append(True)
                 self.newdec.append((k, False))
             newposs = (poss & ps) if choice else (poss - ps)
+            if zd is not None:
+                import z3
+                rel = set(_SWAP[x] for x in newposs) if flip else set(newposs)
+                alts = ([zd < 0] if LT in rel else []) + ([zd == 0] if EQ in rel else []) + ([zd > 0] if GT in rel else [])
+                self.zsolver.add(z3.Or(*alts) if alts else z3.BoolVal(False))
             lst.append((c, frozenset(newposs)))
             p.atoms.append((cond, choice, xdesc, c, frozenset(newposs)))
             p.trace.append((dag.show(cond, 3), choice, what))
@@ -664,6 +741,92 @@ class Executor:
         p.bfacts[cond.id] = (cond, choice)
         p.trace.append((dag.show(cond, 3), choice, what))
         return choice
+
+    def to_z3(self, node):
+        """z3 Real expression of an FP node in the R-semantics (polynomial / rational in the inputs), via the shared LP context"""
+        from . import poly, engine
+        r = poly.to_rf(self.rctx, node)
+        if r.d is not None:
+            return engine.lp_to_z3(self.rctx, r.n, self.zvars) / engine.lp_to_z3(self.rctx, r.d, self.zvars)
+        return engine.lp_to_z3(self.rctx, r.n, self.zvars)
+
+    def z3_outcomes(self, a, b):
+        """subset of {LT, EQ, GT} of a ? b consistent with the constraints collected on this path (None if not expressible)"""
+        import z3
+        try:
+            if any(n.op == "call" for n in dag.topo([a, b])):
+                return None, None
+            d = self.to_z3(a) - self.to_z3(b)
+        except Exception:
+            return None, None
+        out = set()
+        for rel, c in ((LT, d < 0), (EQ, d == 0), (GT, d > 0)):
+            self.zsolver.push()
+            self.zsolver.add(c)
+            r = self.zsolver.check()
+            self.zsolver.pop()
+            if r != z3.unsat:
+                out.add(rel)
+        return out, d
+
+    def fork(self, options, what=""):
+        """n-way fork (first option now, the others scheduled)"""
+        p = self.path
+        k = p.ndec
+        p.ndec += 1
+        if k < len(p.decisions):
+            choice = p.decisions[k]
+        else:
+            choice = options[0]
+            p.decisions.append(choice)
+            for o in options[1:]:
+                self.newdec.append((k, o))
+        return choice
+
+    def concretize_trunc(self, x, width):
+        """fptosi of a symbolic real: enumerate the integer values consistent with the path constraints (z3) and fork over them"""
+        if self.oracle is not None:
+            try:
+                fl = dag.eval_ieee([x], self.oracle)[x.id]
+            except Exception:
+                return None
+            if fl != fl or abs(fl) >= 2 ** 62:
+                raise PathAbort("ub", "float-to-int conversion of %r is undefined" % (fl,))
+            k = int(fl)
+            self.path.sig.append(("trunc", x.id, k))
+            self.path.trace.append(("trunc(%s) == %d" % (dag.show(x, 3), k), True, "fptosi"))
+            self.path.int_facts = getattr(self.path, "int_facts", []) + [(x, k)]
+            return k & ((1 << width) - 1)
+        import z3
+        if self.zsolver is None:
+            return None
+        try:
+            zx = self.to_z3(x)
+        except Exception:
+            return None
+        vals = []
+        k = z3.Int("k_trunc_%d" % self.path.ndec)
+        self.zsolver.push()
+        # truncation toward zero
+        self.zsolver.add(z3.Or(z3.And(zx >= 0, z3.ToReal(k) <= zx, zx < z3.ToReal(k) + 1), z3.And(zx < 0, z3.ToReal(k) >= zx, zx > z3.ToReal(k) - 1)))
+        while len(vals) <= 24:
+            if self.zsolver.check() != z3.sat:
+                break
+            v = self.zsolver.model().eval(k, model_completion=True).as_long()
+            vals.append(v)
+            self.zsolver.add(k != v)
+        self.zsolver.pop()
+        if not vals or len(vals) > 24:
+            return None
+        vals.sort()
+        choice = self.fork(vals, "fptosi")
+        if choice >= 0:
+            self.zsolver.add(zx >= choice, zx < choice + 1)
+        else:
+            self.zsolver.add(zx <= choice, zx > choice - 1)
+        self.path.trace.append(("trunc(%s) == %d" % (dag.show(x, 3), choice), True, "fptosi"))
+        self.path.int_facts = getattr(self.path, "int_facts", []) + [(x, choice)]
+        return choice & ((1 << width) - 1)
 
     @staticmethod
     def _const_rel(c, ps):
@@ -922,6 +1085,9 @@ class Executor:
             if v.op == "const":
                 fl = float(v.args[0])
                 return int(fl) & ((1 << ins.ty.a) - 1)
+            cv = self.concretize_trunc(v, ins.ty.a)
+            if cv is not None:
+                return cv
             return mk_int("fptosi", v, ins.ty.a)
         if op == "fpext":
             v = self.val(ins.args[0], env)
